@@ -285,6 +285,35 @@ fn waiting_sign_inside_a_conjunct(run: &Run) {
                     st.count("side-clause-checks", 1);
                 }
             }
+            // a sign that waits at the very start of a word, then the word is ended without a consonant ever coming
+            // (finish request / ctrl-backspace / one plain backspace): no session is left and the next word is clean
+            for (sv, sk) in &signs {
+                for end in 0..3u8 {
+                    let case = || json!({"option_bits": bits, "lone_waiting_sign_then_end": {"sign": sv, "ending": end}});
+                    let pf = |p: crate::driver::PanicInfo| Failure::new(panic_kind(&p), p.to_string(), case());
+                    pair.on.finish().map_err(pf)?;
+                    pair.off.finish().map_err(pf)?;
+                    type_keys(&pair.on, &[*sk], &case)?;
+                    match end {
+                        0 => pair.on.finish().map_err(pf)?,
+                        1 => {
+                            pair.on.backspace(true).map_err(pf)?;
+                        }
+                        _ => {
+                            pair.on.backspace(false).map_err(pf)?;
+                        }
+                    }
+                    if pair.on.ongoing() {
+                        return Err(Failure::new("pending-sign-survives-the-end-of-the-word", format!("sign {sv:?} alone, then the word was ended (way {end}): the context still reports an ongoing session"), case()));
+                    }
+                    let t = type_keys(&pair.on, &[ka], &case)?;
+                    let want = type_keys(&pair.off, &[ka], &case)?;
+                    if t != want {
+                        return Err(Failure::new("pending-sign-survives-the-end-of-the-word", format!("sign {sv:?} alone, word ended (way {end}), then a consonant: pre-edit {t:?}, expected {want:?}"), case()));
+                    }
+                    st.evals(1);
+                }
+            }
             st.label("waiting-sign-inside-a-conjunct");
             Ok(())
         },
